@@ -403,6 +403,8 @@ class Agent(dbus.service.Object):
         ctr.reload()
         self._apply_primary(ctr)
         ctr.fix_block_num()
+        # index the blocks under the numbers just assigned
+        ctr.reload()
         ctr.bundle.fill_fields()
 
         for step in self._tx_chain:
